@@ -11,7 +11,7 @@ TABLE = [
     ("C08", r"solout", r"exact_zero|event_state|support", ["event_at_step_start_state", "event_function_scale"]),
     ("C08", r"solout", r"events\.|process\.|detect\.", ["events_multi_in_step"]),
     ("C05", r"solout", r"teval\.|support", ["teval_backward_endpoints", "tiny_time_scale", "teval_terminal"]),
-    ("C03", r"dispatch_A", r".*", ["tiny_time_scale", "zero_length_dense", "first_step_rejected_then_success", "first_step_sign_and_overshoot"]),
+    ("C03", r"dispatch_A", r".*", ["default_options_both_directions", "tiny_time_scale", "zero_length_dense", "first_step_rejected_then_success", "first_step_sign_and_overshoot"]),
     ("C06", r"dispatch", r".*", ["zero_length_dense", "sol_at_every_sample"]),
     ("C06", r"method_map", r".*", ["sol_at_every_sample", "zero_length_dense", "dense_midstep_order"]),
     ("C06", r"cont_R", r"sol_many|evaluate_many", ["sol_many_range"]),
@@ -26,6 +26,7 @@ TABLE = [
     ("C03", r"radau_R|bdf_R|dp5_R|dp8_R|rk23_R", r"span\.|status\.", ["first_step_rejected_then_success", "first_step_reaches_xend"]),
     ("C03", r".*_R", r"span\.|hinit|support", ["span_hinit_probe", "rk4_overshoot"]),
     ("C11", r".*_R", r"step\.|hinit", ["step_bounds"]),
+    ("C11", r"dispatch", r".*", ["default_options_both_directions", "step_bounds"]),
     ("C11", r".*", r".*", ["step_bounds", "first_step_reaches_xend"]),
     ("C07", r"bdf", r".*", ["bdf_interpolant_history", "bdf_rescaling_accuracy", "dense_midstep_order"]),
     ("C06", r"bdf_hist", r".*", ["bdf_rescaling_accuracy", "dense_end_points"]),
